@@ -491,9 +491,17 @@ def give_back_rule(F, chk):
     r = chk.rule("R-C08-h", "T8", "a listener that gave its socket back is no longer marked active", floor=4)
     import C17
     n = 0
-    for b in F.grep("Option::<T>::take", "|listener"):
-        root = b.root if "{closure" in b.path else b.path
-        if not (root.startswith(("sozu_lib::", "<sozu_lib::")) and root.rsplit("::", 1)[-1].startswith("give_back_listener")) or b.derived:
+    import inline
+    roots_ = sorted(q for q in F.paths() if q.startswith(("sozu_lib::", "<sozu_lib::")) and "{closure" not in q
+                    and q.rsplit("::", 1)[-1].startswith("give_back_listener"))
+    bodies_ = []
+    for q in roots_:
+        for fq in F.family(q):
+            # `take the socket and clear the flag` may be a method of the listener type: splice those in
+            bodies_.append(inline.threaded(F, inline.inlined(F, F.body(fq), policy="all", depth=2,
+                                                             keep_pred=lambda fn: "Listener::" not in fn and "Listener>::" not in fn)))
+    for b in bodies_:
+        if b.derived:
             continue
         for bi, t in b.calls():
             if not (callee_of(t).endswith("Option::<T>::take") and t["args"]):
